@@ -89,16 +89,78 @@ theorem C32_asShipped_full_when (parseSig : Bytes → Option Sig) (vf : Key → 
   simp only [sigsNeeded] at this
   omega
 
-/-- the store after an accepted header: the header is appended, and `vbftPeerInfoMap[height]` is set exactly when the
-header carries a new chain configuration; nothing else changes (a rejected header changes nothing: `Except.error`). -/
+/-- the store after an accepted header: the header is appended to the index and becomes reachable by hash, and
+`vbftPeerInfoMap[height]` is set exactly when the header carries a new chain configuration; nothing else changes. -/
 theorem C32_store_update (v : Variant) (parseSig : Bytes → Option Sig) (vf : Key → Hash → Sig → VRes) (idOf : Key → Id)
     (st st' : Store Key Id Hash) (h : Hdr Key Id Hash) (ha : addHeader v parseSig vf idOf st h = .ok st') :
-    st'.hdrs = st.hdrs ++ [h] ∧
+    st'.hdrs = st.hdrs ++ [h] ∧ st'.known = st.known ++ [h] ∧ st'.blockHeight = st.blockHeight ∧
     ∃ p, h.payload = some p ∧
       st'.peerMap = (match p.newCfg with | some nc => (h.height, nc.peers) :: st.peerMap | none => st.peerMap) := by
   obtain ⟨hh, st1, hv, rfl⟩ := addHeader_ok v parseSig vf idOf st st' h ha
   obtain ⟨_, p, _, _, _, _, _, _, h4, _, _, rfl⟩ := verifyHeader_ok v parseSig vf idOf st st1 h (by omega) hv
-  cases hn : p.newCfg <;> exact ⟨by simp, p, h4, by simp [hn]⟩
+  cases hn : p.newCfg <;> exact ⟨by simp, by simp, by simp, p, h4, by simp [hn]⟩
+
+/-- **A rejected header changes nothing** - neither the index, nor the headers reachable by hash, nor the recorded peer
+sets, nor the block height: whatever verdict a later header gets is the verdict it would have got without it. -/
+theorem C32_reject_noop (v : Variant) (parseSig : Bytes → Option Sig) (vf : Key → Hash → Sig → VRes) (idOf : Key → Id)
+    (st : Store Key Id Hash) (h : Hdr Key Id Hash) (e : Rej)
+    (hr : (stepHeader v parseSig vf idOf st h).2 = some e) : (stepHeader v parseSig vf idOf st h).1 = st := by
+  unfold stepHeader at hr ⊢
+  cases ha : addHeader v parseSig vf idOf st h with
+  | ok st' => rw [ha] at hr; simp at hr
+  | error e' => rfl
+
+/-- **A rejected block changes nothing either**, with one exception of the shipped code: a block whose header passes
+`verifyHeader` and whose block root is wrong has already written `vbftPeerInfoMap[height]` (`.sound`: not even that).
+In particular a block rejected BY `verifyHeader` (non-member bookkeeper, too few members, bad signature, …) leaves the
+recorded peer sets as they were. -/
+theorem C32_block_reject_noop (v : Variant) (parseSig : Bytes → Option Sig) (vf : Key → Hash → Sig → VRes)
+    (idOf : Key → Id) (st st' : Store Key Id Hash) (h : Hdr Key Id Hash) (rootOK : Bool) (e : Rej)
+    (ha : addBlock v parseSig vf idOf st h rootOK = (st', some e)) (hne : e ≠ .blockRoot ∨ v = .sound) : st' = st := by
+  rcases addBlock_cases v parseSig vf idOf st st' h rootOK (some e) ha with
+    ⟨_, h2, _⟩ | ⟨_, _, h2, _⟩ | ⟨_, h2, _⟩ | ⟨_, _, _, h2, _⟩ | ⟨_, st1, _, ⟨_, h3, h4⟩ | ⟨_, h3, _⟩⟩
+  · exact h2
+  · exact h2
+  · exact h2
+  · exact h2
+  · rcases hne with hne | hne
+    · simp only [Option.some.injEq] at h3; exact absurd h3 hne
+    · subst hne; exact h4
+  · simp at h3
+
+/-- any rejected block, either variant: index, reachable headers and block height are untouched -/
+theorem C32_block_reject_frame (v : Variant) (parseSig : Bytes → Option Sig) (vf : Key → Hash → Sig → VRes)
+    (idOf : Key → Id) (st st' : Store Key Id Hash) (h : Hdr Key Id Hash) (rootOK : Bool) (e : Rej)
+    (ha : addBlock v parseSig vf idOf st h rootOK = (st', some e)) :
+    st'.hdrs = st.hdrs ∧ st'.known = st.known ∧ st'.blockHeight = st.blockHeight := by
+  rcases addBlock_cases v parseSig vf idOf st st' h rootOK (some e) ha with
+    ⟨_, rfl, _⟩ | ⟨_, _, rfl, _⟩ | ⟨_, rfl, _⟩ | ⟨_, _, _, rfl, _⟩ | ⟨_, st1, _, ⟨_, _, h4⟩ | ⟨_, h3, _⟩⟩
+  · exact ⟨rfl, rfl, rfl⟩
+  · exact ⟨rfl, rfl, rfl⟩
+  · exact ⟨rfl, rfl, rfl⟩
+  · exact ⟨rfl, rfl, rfl⟩
+  · cases v <;> simp only at h4 <;> subst h4 <;> exact ⟨rfl, rfl, rfl⟩
+  · simp at h3
+
+/-- a block above the committed height that is accepted went through the same check as a header: `C32_accept_partial`
+holds for it (and `C32_full_sound`'s conclusion under `.sound`) -/
+theorem C32_block_accept_partial (v : Variant) (parseSig : Bytes → Option Sig) (vf : Key → Hash → Sig → VRes)
+    (idOf : Key → Id) (st st' : Store Key Id Hash) (h : Hdr Key Id Hash) (rootOK : Bool)
+    (ha : addBlock v parseSig vf idOf st h rootOK = (st', none)) (hh : st.blockHeight < h.height) :
+    h.height = st.blockHeight + 1 ∧
+    ∃ ch c ids, governing st h = some (ch, c, ids) ∧
+      QuorumFacts v parseSig (fun k s => vf k h.hash s) idOf c ids h.bookkeepers h.sigData := by
+  rcases addBlock_cases v parseSig vf idOf st st' h rootOK none ha with
+    ⟨h1, _, _⟩ | ⟨_, _, _, h3⟩ | ⟨_, _, h3⟩ | ⟨_, _, _, _, h3⟩ | ⟨h1, st1, hv, ⟨_, h3, _⟩ | _⟩
+  · omega
+  · simp at h3
+  · simp at h3
+  · simp at h3
+  · simp at h3
+  · obtain ⟨prevHdr, p, ch, c, ids, g1, _, _, g4, g5, g6, _⟩ :=
+      verifyHeader_ok v parseSig vf idOf st st1 h (by omega) hv
+    refine ⟨h1, ch, c, ids, ?_, checkQuorum_ok v parseSig _ idOf c ids _ _ g6⟩
+    simp [governing, g1, g4, g5]
 
 omit [DecidableEq Id] [DecidableEq Hash] in
 /-- for a header WITHOUT a new chain configuration the configuration height is the header's own `LastConfigBlockNum`
@@ -144,7 +206,7 @@ abbrev TStore := Store Nat Nat Nat
 
 /-- genesis header of a 7-peer configuration with C = 2 (ids 0…6), hash 0 -/
 def gen7 : THdr := ⟨0, 0, 99, 0, some ⟨4294967295, some ⟨2, [0, 1, 2, 3, 4, 5, 6]⟩⟩, [], []⟩
-def st7 : TStore := ⟨[gen7], [(0, [0, 1, 2, 3, 4, 5, 6])]⟩
+def st7 : TStore := ⟨[gen7], [gen7], [(0, [0, 1, 2, 3, 4, 5, 6])], 0⟩
 
 /-- height 1, three listed members, ONE signature (of member 0) -/
 def forged : THdr := ⟨1, 1, 0, 1, some ⟨0, none⟩, [0, 1, 2], [[0, 1]]⟩
@@ -170,7 +232,7 @@ example : rejOf (addHeader .sound toyParse toyVf id st7 forged) = some .sigCount
 /-- variant *one signer counted on two indexes*: N = 14, C = 4, m = 2; the list names member 0 twice (five distinct members
 listed), the SAME signature of member 0 is supplied twice and matches index 0, then index 1 -/
 def gen14 : THdr := ⟨0, 0, 99, 0, some ⟨4294967295, some ⟨4, [0, 1, 2, 3, 4, 5, 6, 7, 8, 9, 10, 11, 12, 13]⟩⟩, [], []⟩
-def st14 : TStore := ⟨[gen14], [(0, [0, 1, 2, 3, 4, 5, 6, 7, 8, 9, 10, 11, 12, 13])]⟩
+def st14 : TStore := ⟨[gen14], [gen14], [(0, [0, 1, 2, 3, 4, 5, 6, 7, 8, 9, 10, 11, 12, 13])], 0⟩
 def dupForged : THdr := ⟨1, 1, 0, 1, some ⟨0, none⟩, [0, 0, 1, 2, 3, 4], [[0, 1], [0, 1]]⟩
 
 theorem C32_duplicate_signer_accepted :
@@ -184,8 +246,8 @@ example : rejOf (addHeader .sound toyParse toyVf id st14 dupForged) = some .dupB
 list `m = 0` as well, so a header with no bookkeeper and no signature is accepted -/
 def genWrap : THdr := ⟨0, 0, 99, 0, some ⟨4294967295, some ⟨4294967295, []⟩⟩, [], []⟩
 theorem C32_wrap_accepted :
-    rejOf (addHeader .asShipped toyParse toyVf id ⟨[genWrap], [(0, [])]⟩ ⟨1, 1, 0, 1, some ⟨0, none⟩, [], []⟩) = none ∧
-    rejOf (addHeader .sound toyParse toyVf id ⟨[genWrap], [(0, [])]⟩ ⟨1, 1, 0, 1, some ⟨0, none⟩, [], []⟩)
+    rejOf (addHeader .asShipped toyParse toyVf id ⟨[genWrap], [genWrap], [(0, [])], 0⟩ ⟨1, 1, 0, 1, some ⟨0, none⟩, [], []⟩) = none ∧
+    rejOf (addHeader .sound toyParse toyVf id ⟨[genWrap], [genWrap], [(0, [])], 0⟩ ⟨1, 1, 0, 1, some ⟨0, none⟩, [], []⟩)
       = some .fewMembers := by
   decide
 
@@ -203,6 +265,43 @@ def staleAccepted (v : Variant) : Bool :=
     decide (rejOf (addHeader v toyParse toyVf id st1 staleCfg) = none)
 theorem C32_stale_config_accepted : staleAccepted .asShipped = true := by decide
 
+/-! ### Header sync ahead of block sync: a bogus BLOCK for an already indexed height.
+`h1` (height 1) genuinely installs the configuration 0…6 again, `h2` follows it; then a block for height 1 announcing the
+outsiders 7…13 and signed by them is delivered through `AddBlock`: rejected (`nonMember`), and the store is unchanged
+(`C32_block_reject_noop`), so the header for height 3 signed by the outsiders is rejected and the genuine one accepted. -/
+def h1 : THdr := ⟨1, 1, 0, 1, some ⟨0, some ⟨2, [0, 1, 2, 3, 4, 5, 6]⟩⟩, [0, 1, 2, 3, 4], [[0, 1], [1, 1], [2, 1], [3, 1], [4, 1]]⟩
+def h2 : THdr := ⟨2, 2, 1, 2, some ⟨1, none⟩, [2, 3, 4, 5, 6], [[2, 2], [3, 2], [4, 2], [5, 2], [6, 2]]⟩
+def bogusBlock (sigs : List Bytes) (bk : List Nat) : THdr :=
+  ⟨3, 1, 0, 1, some ⟨0, some ⟨2, [7, 8, 9, 10, 11, 12, 13]⟩⟩, bk, sigs⟩
+def outsider3 : THdr := ⟨4, 3, 2, 3, some ⟨1, none⟩, [7, 8, 9, 10, 11], [[7, 4], [8, 4], [9, 4], [10, 4], [11, 4]]⟩
+def genuine3 : THdr := ⟨5, 3, 2, 3, some ⟨1, none⟩, [0, 1, 2, 3, 4], [[0, 5], [1, 5], [2, 5], [3, 5], [4, 5]]⟩
+
+def aheadStore (v : Variant) : TStore :=
+  (stepHeader v toyParse toyVf id (stepHeader v toyParse toyVf id st7 h1).1 h2).1
+
+theorem C32_bogus_block_rejected_and_harmless (v : Variant) :
+    (aheadStore v).hdrs.length = 3 ∧
+    (addBlock v toyParse toyVf id (aheadStore v) (bogusBlock [[7, 3], [8, 3], [9, 3]] [7, 8, 9]) true).2 = some .nonMember ∧
+    (stepHeader v toyParse toyVf id
+      (addBlock v toyParse toyVf id (aheadStore v) (bogusBlock [[7, 3], [8, 3], [9, 3]] [7, 8, 9]) true).1 outsider3).2
+        = some .nonMember ∧
+    (stepHeader v toyParse toyVf id
+      (addBlock v toyParse toyVf id (aheadStore v) (bogusBlock [[7, 3], [8, 3], [9, 3]] [7, 8, 9]) true).1 genuine3).2
+        = none := by
+  cases v <;> decide
+
+/-- the exception of `C32_block_reject_noop` is real for the shipped code: the bogus block lists three members, carries ONE
+member signature (enough for `verifyHeader`, N = 7) and a wrong block root - it is rejected, but the peer set recorded
+for height 1 is now the outsiders', and the header for height 3 signed by outsiders only is accepted -/
+theorem C32_asShipped_rejected_block_updates_map :
+    (addBlock .asShipped toyParse toyVf id (aheadStore .asShipped) (bogusBlock [[0, 3]] [0, 1, 2]) false).2 = some .blockRoot ∧
+    (stepHeader .asShipped toyParse toyVf id
+      (addBlock .asShipped toyParse toyVf id (aheadStore .asShipped) (bogusBlock [[0, 3]] [0, 1, 2]) false).1 outsider3).2
+        = none ∧
+    (stepHeader .sound toyParse toyVf id
+      (addBlock .sound toyParse toyVf id (aheadStore .sound) (bogusBlock [[0, 3], [1, 3], [2, 3]] [0, 1, 2]) false).1 outsider3).2
+        = some .nonMember := by decide
+
 /-! Non-vacuity: a header accepted by BOTH variants (three members sign), and N = 8, C = 1 where the shipped code is
 enough (`C32_asShipped_full_when`: m = 2 = C+1). -/
 
@@ -214,9 +313,9 @@ example : rejOf (addHeader .sound toyParse toyVf id st7 honest) = none ∧
 
 def gen8 : THdr := ⟨0, 0, 99, 0, some ⟨4294967295, some ⟨1, [0, 1, 2, 3, 4, 5, 6, 7]⟩⟩, [], []⟩
 example : ledgerStore_vbft_m 8 = 2 ∧
-    rejOf (addHeader .asShipped toyParse toyVf id ⟨[gen8], [(0, [0, 1, 2, 3, 4, 5, 6, 7])]⟩
+    rejOf (addHeader .asShipped toyParse toyVf id ⟨[gen8], [gen8], [(0, [0, 1, 2, 3, 4, 5, 6, 7])], 0⟩
       ⟨1, 1, 0, 1, some ⟨0, none⟩, [3, 5], [[5, 1], [3, 1]]⟩) = none ∧
-    rejOf (addHeader .asShipped toyParse toyVf id ⟨[gen8], [(0, [0, 1, 2, 3, 4, 5, 6, 7])]⟩
+    rejOf (addHeader .asShipped toyParse toyVf id ⟨[gen8], [gen8], [(0, [0, 1, 2, 3, 4, 5, 6, 7])], 0⟩
       ⟨1, 1, 0, 1, some ⟨0, none⟩, [3, 5], [[5, 1], [5, 1]]⟩) = some .sigFail := by decide
 
 /-- wrong-message and undecodable signatures are rejected; a non-member bookkeeper is rejected -/
